@@ -78,3 +78,9 @@ CLAIMED['C11'] = ('6/C11', 'Bounded symbolic check against an independent MRO sl
                   'compared slot by slot (nearest holder, instantiate inherited, allow_None recomputed) and class creation must fail exactly '
                   'when the merged non-None default violates the merged bounds/type (None re-checked only on type change).',
                   'symbolic execution (CrossHair+z3) of the metaclass slot inheritance against an independent resolver')
+CLAIMED['C12'] = ('6/C12', 'Bounded-exhaustive symbolic check against an ownership model: classes A and B(A) (Integer, List with instantiate on/off, '
+                  'constant, Selector without objects) under every history of k=3/4 symbolic operations (create instance with/without kwarg, '
+                  'instance set, assigning the identical current class default, class set on A/B, in-place append, per-instance bounds edit, '
+                  'class-level Parameter edit, per-instance Selector.objects append, class-level reassignment of the constant; symbolic '
+                  'values); after every step all classes and instances are compared with the model (who owns which value / Parameter object).',
+                  'symbolic execution (CrossHair+z3) of instance/class value and Parameter-object handling against an ownership model')
